@@ -247,7 +247,19 @@ def run_family(ctx, prop, clause_of, nontrivial, rule, want=("steps", "dec", "ch
             items.append({"id": len(items), "prog": ops, "variants": var, "tag": "spec-rejects"})
     for it in items:
         it["want"] = want
-    records = rec_vm.record_many(items)
+    # recording order: shuffled, so that neighbours in one recording process are unrelated programs (state that the
+    # library keeps between pickles - caches keyed by value, name or position - meets conflicting inputs), and a seeded
+    # sample is recorded a second time at the end of the sequence, in reverse order, under fresh ids: both recordings are judged
+    order = list(range(len(items)))
+    ctx.rng.shuffle(order)
+    again = []
+    for k in order[: max(50, len(items) // 25)][::-1]:
+        it = dict(items[k])
+        it["id"] = len(items) + len(again)
+        it["tag"] = items[k].get("tag", "")
+        again.append(it)
+    seq = [items[k] for k in order] + again
+    records = sorted(rec_vm.record_many(seq), key=lambda r: r["id"])
     t2 = _t.time()
     verdicts = validate(ctx, records)
     ctx.notes.append(f"phases: generate+instantiate {t1 - t0:.1f}s, record {t2 - t1:.1f}s, validate {_t.time() - t2:.1f}s")
